@@ -3,15 +3,15 @@ SPECIFICATION SpecB
 CONSTANTS
   Peers = {"p1", "p2"}
   Self = "self"
-  Limit = 1
-  Workers = {"w1"}
-  Callers = {"c1", "c2"}
+  Limit = 2
+  Workers = {"w1", "w2"}
+  Callers = {}
   Delay = 1
-  MaxRounds = 1
-  MaxDrops = 0
+  MaxRounds = 3
+  MaxDrops = 1
   MaxInbound = 0
   MaxFail = 0
-  MaxCalls = 3
+  MaxCalls = 0
   MaxApi = 0
   WithGC = FALSE
   AtomicPeers = FALSE
@@ -19,7 +19,7 @@ CONSTANTS
   Serialized = FALSE
   DirectAPI = FALSE
   MaxLen = 200
-  Wanted = {"wake2", "cancelpark", "cancel", "x_stranded"}
+  Wanted = {"x_dial"}
 CHECK_DEADLOCK FALSE
 VIEW state
 ACTION_CONSTRAINT CoarseSchedule
